@@ -240,3 +240,65 @@ Theorem C06_oracle_sound : forall (A : Type) (ops : app_ops A) (p : params),
   forall k r, In (k, r) (monitor p (length apps) (model_transcript A ops p apps ins)) -> rule_prop r <> PC06.
 Proof. exact c06_oracle_sound. Qed.
 Print Assumptions C06_oracle_sound.
+
+(* ========================================================================================== *)
+(* C06_lost_token_recovers_alone, from EVERY state (Proofs/C06Recover.v).
+   A lone online station on a silent bus: the receive buffer is empty in every poll, the PHY reports busy at
+   most while the station itself still predicts the end of its own transmission (`lone_ok`, which also says:
+   poll times increase with gaps of at most P).  From every station state f that satisfies the
+   representation invariant Rep of C05 (any state: also PassToken / CheckTokenPass with a stale ring view,
+   AwaitStatusResponse, AwaitDataResponse, UseToken, ClaimToken, a status request pending; any applications
+   that are total) and records some bus activity unless it has just been set online (`f_lba f = None ->
+   f_state f = Offline`: invariant ti_some of every reachable state, Proofs/FdlOracleSound3.v):
+   no poll of the schedule panics, and the station is in a token-holding state (have_token: UseToken,
+   ClaimToken, AwaitDataResponse, AwaitStatusResponse - it has claimed the token or kept it) after some poll
+   at or before `recover_bound P f t1` - unless the schedule ends before that time minus one poll period
+   (`reached`).  t1 is the time of the first poll, L the last recorded bus activity (t1 if none).
+     idle chain  (Offline/ListenToken/ActiveIdle):
+        max(t1, L + Ttimeout(TS) + P) + r * (T(6 bytes) + Ttimeout(TS) + P),   r <= 2
+     token chain (the other states):
+        max(t1, L + Tslot + P) + k * (T(3 bytes) + Tslot + P),   k <= 3 * (LAS entries other than TS) + 5
+   (k counts polls that make progress: three passes per stale LAS entry - C11_retry_discipline -, the removal
+   happens with the third expiry; `mu_B`).  The proof is a ranking argument over (LAS entries other than TS,
+   attempt) with `others_witness` / `others_remove`; between two progress polls the station provably only
+   waits (state, ring view and last_bus_activity unchanged), at most until L' + Tslot (+ P for the next poll). *)
+From PB Require Import C05Proofs FdlOracleSound2 C06Recover.
+
+Theorem C06_lost_token_recovers_alone : forall (A : Type) (ops : app_ops A) (P : Z), apps_total A ops ->
+  forall (ins : list (Z * bool)) (f : fdl) (apps : list A) (tprev : Z),
+  0 <= P -> Rep (length apps) f -> f_conn f = ConnOnline -> (f_lba f = None -> f_state f = Offline) ->
+  lone_ok A ops P f apps tprev ins ->
+  exists steps, run_polls ops f apps (map silent_in2 ins) = Ok steps /\
+    match ins with [] => steps = [] | (t1, _) :: _ => reached P (recover_bound P f t1) steps end.
+Proof. exact lost_token_recovers_alone. Qed.
+Print Assumptions C06_lost_token_recovers_alone.
+
+(* ... in the form "if the schedule goes on long enough": it has a poll later than the bound minus one period *)
+Theorem C06_lost_token_recovers_alone_by : forall (A : Type) (ops : app_ops A) (P : Z), apps_total A ops ->
+  forall (ins : list (Z * bool)) (f : fdl) (apps : list A) (tprev t1 : Z) (b : bool) (rest : list (Z * bool)) (t : Z),
+  0 <= P -> Rep (length apps) f -> f_conn f = ConnOnline -> (f_lba f = None -> f_state f = Offline) ->
+  ins = (t1, b) :: rest -> lone_ok A ops P f apps tprev ins ->
+  In t (map fst ins) -> recover_bound P f t1 - P < t ->
+  exists steps, run_polls ops f apps (map silent_in2 ins) = Ok steps /\
+    Exists (fun s => have_token (f_state (s_f' s)) = true /\ C11Proofs.s_now s <= recover_bound P f t1) steps.
+Proof. exact lost_token_recovers_alone_by. Qed.
+Print Assumptions C06_lost_token_recovers_alone_by.
+
+(* a closed form above the bound, for all states: (3 * stale entries + 5) steps of at most
+   Ttimeout(TS) + T(6 bytes) + P each; the LAS has 128 entries, so at most 3 * 128 + 5 steps *)
+Theorem C06_recover_bound_explicit : forall (P : Z) (f : fdl) (t1 : Z) (n : nat), 0 <= P -> Rep n f ->
+  recover_bound P f t1 <=
+  Z.max t1 (gv t1 (f_lba f) + token_lost_timeout (f_p f) + P) +
+  (3 * Z.of_nat (others (f_ring f) (ts f)) + 5) * (dur (f_p f) 6 + token_lost_timeout (f_p f) + P).
+Proof. exact recover_bound_le. Qed.
+Print Assumptions C06_recover_bound_explicit.
+
+Theorem C06_stale_entries_bound : forall (r : ring) (a : Z), C02Proofs.wf r -> (others r a <= 128)%nat.
+Proof. exact others_bound. Qed.
+Print Assumptions C06_stale_entries_bound.
+
+(* non-vacuity: the default parameters, station created, set online, polled every 50 ms on a silent bus *)
+Example C06_recover_example : forall f0 f, fdl_new default_params = Ok f0 -> set_online f0 = Ok f ->
+  exists steps, run_polls unit_app_ops f [tt] (map silent_in2 ex_sched) = Ok steps /\
+    Exists (fun s => have_token (f_state (s_f' s)) = true /\ C11Proofs.s_now s <= 291872) steps.
+Proof. exact ex_recover_fresh. Qed.
